@@ -8,7 +8,13 @@ use super::src_kani::Src;
 use super::src_kani::KaniSrc;
 use super::target::api_removed;
 
+#[cfg(verif_deep)]
+pub const NK: usize = 6;
+#[cfg(verif_deep)]
+pub const NF: usize = 4;
+#[cfg(not(verif_deep))]
 pub const NK: usize = 4;
+#[cfg(not(verif_deep))]
 pub const NF: usize = 3;
 
 fn sym_path<'a, S: Src, const M: usize>(s: &mut S, buf: &'a mut [u8; M]) -> &'a str {
@@ -77,9 +83,9 @@ pub fn dispatch<S: Src>(name: &str, s: &mut S) -> bool {
 mod proofs {
     use super::*;
     #[kani::proof]
-    #[kani::unwind(8)]
+    #[kani::unwind(10)]
     fn removes_exactly_files_inside() { super::removes_exactly_files_inside(&mut KaniSrc) }
     #[kani::proof]
-    #[kani::unwind(8)]
+    #[kani::unwind(10)]
     fn canary_folder() { super::canary_folder(&mut KaniSrc) }
 }
